@@ -24,8 +24,8 @@ skipped), and it is the whole sequence once the player has left its loop without
 stopped. -/
 theorem delivered_prefix {cfg : Cfg} {script : List Cmd} {s : State} (h : Reach cfg script s)
     (k : Nat) (p : Player) (hp : s.players[k]? = some p) :
-    p.written <+: chunksOf cfg.cs p.audio ∧
-    (afterLoop p.pc = true → p.halting = false → p.written = chunksOf cfg.cs p.audio) := by
+    p.written <+: chunksOf p.cs p.audio ∧
+    (afterLoop p.pc = true → p.halting = false → p.written = chunksOf p.cs p.audio) := by
   obtain ⟨h0, h1, _, h3⟩ := ploc_reach h k p hp
   refine ⟨⟨p.todo, by rw [h1, h0]⟩, fun ha hh => ?_⟩
   rcases h3 ha with ht | ht
@@ -45,13 +45,13 @@ theorem chunks_are_padded_audio (cs : Nat) (hs : 0 < cs) (audio : List Int) :
 /-- **C17.1c delivered_complete** — a player that left its loop without having been stopped has
 delivered exactly the audio followed by the zero padding, as consecutive chunks of `cs` samples. -/
 theorem delivered_complete {cfg : Cfg} {script : List Cmd} {s : State} (h : Reach cfg script s)
-    (hcs : 0 < cfg.cs) (k : Nat) (p : Player) (hp : s.players[k]? = some p)
+    (k : Nat) (p : Player) (hp : s.players[k]? = some p) (hcs : 0 < p.cs)
     (ha : afterLoop p.pc = true) (hh : p.halting = false) :
-    p.written.flatten = p.audio ++ List.replicate (padLen cfg.cs p.audio.length) 0 ∧
-    ∀ c ∈ p.written, c.length = cfg.cs := by
+    p.written.flatten = p.audio ++ List.replicate (padLen p.cs p.audio.length) 0 ∧
+    ∀ c ∈ p.written, c.length = p.cs := by
   have hw := (delivered_prefix h k p hp).2 ha hh
   rw [hw]
-  exact ⟨(chunks_are_padded_audio cfg.cs hcs p.audio).1, (chunks_are_padded_audio cfg.cs hcs p.audio).2.1⟩
+  exact ⟨(chunks_are_padded_audio p.cs hcs p.audio).1, (chunks_are_padded_audio p.cs hcs p.audio).2.1⟩
 
 example : chunksOf 2 [1, 2, 3] = [[1, 2], [3, 0]] := by decide
 
@@ -67,8 +67,8 @@ theorem finished_after_close {cfg : Cfg} {script : List Cmd} {s : State} (h : Re
 
 /-- **C17.4 play_after_close_raises** — on a finished manager `play` creates no thread, opens no
 stream, leaves `_threads` alone and raises `ThreadError` (two steps: lock, raise + release). -/
-theorem play_after_close_raises (cfg : Cfg) (s s1 s2 : State) (a : List Int)
-    (hf : s.finished = true) (hpc : s.mpc = .pAcq a)
+theorem play_after_close_raises (cfg : Cfg) (s s1 s2 : State) (a : List Int) (c : Nat)
+    (hf : s.finished = true) (hpc : s.mpc = .pAcq a c)
     (h1 : stepMain cfg s = some s1) (h2 : stepMain cfg s1 = some s2) :
     s1.players = s.players ∧ s2.players = s.players ∧ s2.threads = s.threads ∧
     Ev.playThreadError ∈ s2.log ∧ s2.finished = true := by
@@ -86,7 +86,7 @@ theorem play_after_close_raises (cfg : Cfg) (s s1 s2 : State) (a : List Int)
 
 /-- non-vacuity: `close ; play` reaches the raising branch (default schedule of the control
 script alone) -/
-example : ((runSched ⟨false, false, 2⟩ (init [.close, .play [1, 2, 3]])
+example : ((runSched ⟨false, false⟩ (init [.close, .play [1, 2, 3] 2])
     (List.replicate 9 Tid.main)).1.log) = [.closeOk [] 0, .playThreadError] := by decide
 
 /-- **C17.3 closed_after** — once the backend has been terminated (which only `close` does, as its
@@ -105,7 +105,7 @@ theorem closed_after_close {cfg : Cfg} {script : List Cmd} {s : State} (h : Reac
 
 /-- non-vacuity of `closed_after_close`: a full run of `play ; close` under a schedule with
 context switches ends with `close` returned and everything shut -/
-example : let s := (runSched ⟨false, false, 2⟩ (init [.play [101, 102, 103], .close])
+example : let s := (runSched ⟨false, false⟩ (init [.play [101, 102, 103] 2, .close])
       ([0,0,0,0,0,0,0,0,0,0,0,1,1,1,1,0,1,1,1,1,1,0,0,0,0,0].map
         fun n => if n = 0 then Tid.main else Tid.player (n - 1))).1
     (Ev.closeOk [false] 0 ∈ s.log ∧ closedAfter s = true ∧ s.mpc = .done) := by decide
@@ -164,7 +164,7 @@ theorem lock_order {cfg : Cfg} {script : List Cmd} {s : State} (hr : Reach cfg s
         cases p.pc <;> simp [wantsPlayer, selfHold] <;> intro e <;> subst e <;> simp [lockRank]
 
 /-- non-vacuity: a player at `thread_finished` holds its own lock and wants the manager lock -/
-example : let s := (runSched ⟨true, false, 2⟩ (init [.play [101], .close])
+example : let s := (runSched ⟨true, false⟩ (init [.play [101] 2, .close])
       ([0,0,0,0,0,0,0,1,1,1,1,1].map fun n => if n = 0 then Tid.main else Tid.player (n - 1))).1
     (wants s (.player 0) = some .mlock ∧ (s.players[0]?).map (·.lk) = some (some (.player 0))) := by
   decide
@@ -218,8 +218,8 @@ theorem steps_bounded_explicit (cfg : Cfg) (script : List Cmd) (sched : List Tid
 
 /-- non-vacuity: a schedule of 30 steps that is executed to its end (the bound is 52) -/
 example : let sched := mkSched ([0,0,0,0,0,0,0,0,0,0,0,0,1,1,1,1,0,0,0] ++ [1,1,1,1,1,1,0,0,0,0,0])
-    (runSched ⟨false, true, 2⟩ (init [.play [101], .ctl .pause 0, .close]) sched).2 = [] ∧
-    sched.length = 30 ∧ stepBound ⟨false, true, 2⟩ [.play [101], .ctl .pause 0, .close] = 52 := by
+    (runSched ⟨false, true⟩ (init [.play [101] 2, .ctl .pause 0, .close]) sched).2 = [] ∧
+    sched.length = 30 ∧ stepBound ⟨false, true⟩ [.play [101] 2, .ctl .pause 0, .close] = 52 := by
   decide
 
 /-- **C17.8c maximal_run_exists** — every executed schedule can be continued to a terminal state
@@ -249,9 +249,9 @@ theorem terminal_states {cfg : Cfg} {script : List Cmd} {s : State} (hr : Reach 
 /-- non-vacuity: the second alternative is reachable with the repaired `stop()` too — by the
 script's own `join` of a player it has paused (`th.pause(); th.join()` blocks on the real code
 as well: scheduler run `play ; pause ; join ; close` ends in `0:th0.join:0,1:go0.wait:0`) -/
-example : let s := (runSched ⟨false, true, 2⟩ (init [.play [101], .ctl .pause 0, .join 0, .close])
+example : let s := (runSched ⟨false, true⟩ (init [.play [101] 2, .ctl .pause 0, .join 0, .close])
       (mkSched [0,0,0,0,0,1,0,0,0,1,1,1,0])).1
-    (terminal ⟨false, true, 2⟩ s = true ∧ s.mpc = .jJoin 0 ∧ pcAt s 0 = some .goWait) := by decide
+    (terminal ⟨false, true⟩ s = true ∧ s.mpc = .jJoin 0 ∧ pcAt s 0 = some .goWait) := by decide
 
 /-- **C17.10 close_never_blocks_fixed** — with the repaired `stop()` and `wait=False` no run
 ends inside `close`, whatever was paused, for EVERY script: a run can only get stuck in a `join`
@@ -280,7 +280,7 @@ theorem close_returns_fixed (cfg : Cfg) (script : List Cmd) (s : State) (hf : cf
   · exact absurd hmem (hj i)
 
 /-- non-vacuity: `play ; pause ; close` under the schedule on which the code as it was deadlocks -/
-example : (runSched ⟨false, true, 2⟩ (init [.play [101], .ctl .pause 0, .close])
+example : (runSched ⟨false, true⟩ (init [.play [101] 2, .ctl .pause 0, .close])
     (mkSched ([0,0,0,0,0,0,0,0,0,0,0,0,1,1,1,1,0,0,0] ++ [1,1,1,1,1,1,0,0,0,0,0]))).1.mpc = .done :=
   close_returns_fixed _ _ _ rfl rfl (by simp) (reach_runSched _ Reach.init) (by decide)
 
@@ -297,8 +297,8 @@ theorem close_returns_no_pause (cfg : Cfg) (script : List Cmd) (s : State) (hn :
   exact allDone_of_done hr ht hd (fun k p hp hpc => absurd hpc (np k p hp).noWait)
 
 /-- non-vacuity: two players, `stop` of one, `join` of the other, `wait=True`, code as it was -/
-example : allDone (runSched ⟨true, false, 1⟩
-      (init [.play [101, 102], .play [201], .ctl .stop 0, .join 1, .close])
+example : allDone (runSched ⟨true, false⟩
+      (init [.play [101, 102] 1, .play [201] 1, .ctl .stop 0, .join 1, .close])
       (mkSched [0,0,0,0,0,1,0,0,0,1,1,1,0,0,1,2,2,2,0,0,0,2,2,2,0,1,1,2,2,1,0,0,1,1,0,0,0,0])).1 = true :=
   close_returns_no_pause _ _ _ (by intro i h; simp at h) (reach_runSched _ Reach.init) (by decide)
 
@@ -344,11 +344,11 @@ theorem close_returns_wait_checked (cfg : Cfg) (script : List Cmd) (s : State)
 
 /-- non-vacuity: `wait=True`, a player paused and resumed before `close`; and the check rejects
 the script of known finding D10b -/
-example : (runSched ⟨true, true, 2⟩ (init [.play [101, 102, 103], .ctl .pause 0, .ctl .resume 0, .close])
+example : (runSched ⟨true, true⟩ (init [.play [101, 102, 103] 2, .ctl .pause 0, .ctl .resume 0, .close])
     (mkSched [0,0,0,0,0,1,0,0,0,1,1,1,0,0,0,1,1,1,0,0,0,1,1,1,0,1,1,1,0,0,0,0,0])).1.mpc = .done :=
   close_returns_wait_checked _ _ _ rfl (by decide) (by simp) (reach_runSched _ Reach.init) (by decide)
 
-example : closeUnpaused ⟨true, true, 2⟩ [.play [101], .ctl .pause 0, .close] = false := by decide
+example : closeUnpaused ⟨true, true⟩ [.play [101] 2, .ctl .pause 0, .close] = false := by decide
 
 /-- **C17.13 shutdown** — once the control script has finished in a terminal state and the script
 contained a `close`: that `close` has returned, every device stream is closed, `_threads` is
@@ -382,9 +382,9 @@ theorem shutdown_fixed (cfg : Cfg) (script : List Cmd) (hf : cfg.fixed = true)
     exact ⟨hd, after_done hr ht hd hc⟩
 
 /-- non-vacuity of `shutdown_fixed`: a maximal run with a paused player -/
-example : let s := (runSched ⟨false, true, 2⟩ (init [.play [101], .ctl .pause 0, .close])
+example : let s := (runSched ⟨false, true⟩ (init [.play [101] 2, .ctl .pause 0, .close])
       (mkSched ([0,0,0,0,0,0,0,0,0,0,0,0,1,1,1,1,0,0,0] ++ [1,1,1,1,1,1,0,0,0,0,0]))).1
-    (terminal ⟨false, true, 2⟩ s = true ∧ Ev.closeOk [false] 0 ∈ s.log ∧ noneAlive s = true) := by
+    (terminal ⟨false, true⟩ s = true ∧ Ev.closeOk [false] 0 ∈ s.log ∧ noneAlive s = true) := by
   decide
 
 /-- **C17.13c shutdown_no_pause** — the same for scripts without `pause` calls: both variants of
@@ -412,8 +412,8 @@ theorem shutdown_no_pause (cfg : Cfg) (script : List Cmd) (hn : NoPause script)
 
 /-- non-vacuity of `shutdown_no_pause`: its hypotheses hold on a maximal run of two players
 (`wait=True`, code as it was, `stop` of one and `join` of the other) -/
-example : closedAfter (runSched ⟨true, false, 1⟩
-      (init [.play [101, 102], .play [201], .ctl .stop 0, .join 1, .close])
+example : closedAfter (runSched ⟨true, false⟩
+      (init [.play [101, 102] 1, .play [201] 1, .ctl .stop 0, .join 1, .close])
       (mkSched [0,0,0,0,0,1,0,0,0,1,1,1,0,0,1,2,2,2,0,0,0,2,2,2,0,1,1,2,2,1,0,0,1,1,0,0,0,0])).1 = true :=
   ((shutdown_no_pause _ _ (by intro i h; simp at h) (by simp) _ (by decide)).2 (by decide)).2.2.1
 
@@ -450,10 +450,10 @@ theorem shutdown_wait_checked (cfg : Cfg) (script : List Cmd) (hf : cfg.fixed = 
   shutdown_wait cfg script hf (unpaused_of_check hu) hj hc sched hrun
 
 /-- non-vacuity of `shutdown_wait_checked` (`wait=True`, pause and resume before `close`) -/
-example : let s := (runSched ⟨true, true, 2⟩
-      (init [.play [101, 102, 103], .ctl .pause 0, .ctl .resume 0, .close])
+example : let s := (runSched ⟨true, true⟩
+      (init [.play [101, 102, 103] 2, .ctl .pause 0, .ctl .resume 0, .close])
       (mkSched [0,0,0,0,0,1,0,0,0,1,1,1,0,0,0,1,1,1,0,0,0,1,1,1,0,1,1,1,0,0,0,0,0])).1
-    (terminal ⟨true, true, 2⟩ s = true ∧ Ev.closeOk [false] 0 ∈ s.log ∧ noneAlive s = true ∧
+    (terminal ⟨true, true⟩ s = true ∧ Ev.closeOk [false] 0 ∈ s.log ∧ noneAlive s = true ∧
       (s.players.map (·.written)) = [[[101, 102], [103, 0]]]) := by
   decide
 
@@ -466,7 +466,7 @@ theorem wait_close_delivers_all {cfg : Cfg} {script : List Cmd} {s : State} (hw 
     (hns : ∀ i, Cmd.ctl .stop i ∉ script) (hr : Reach cfg script s)
     (al : List Bool) (n : Nat) (hc : Ev.closeOk al n ∈ s.log)
     (k : Nat) (p : Player) (hp : s.players[k]? = some p) :
-    p.written = chunksOf cfg.cs p.audio := by
+    p.written = chunksOf p.cs p.audio := by
   have hca := closed_after_close hr al n hc
   have hex : exiting p = true := by
     unfold closedAfter at hca
@@ -477,8 +477,8 @@ theorem wait_close_delivers_all {cfg : Cfg} {script : List Cmd} {s : State} (hw 
   exact (delivered_prefix hr k p hp).2 hal ((hn_reach hw hns hr).noHalt k p hp)
 
 /-- non-vacuity: `wait=True`, pause and resume, three samples in chunks of two -/
-example : let s := (runSched ⟨true, true, 2⟩
-      (init [.play [101, 102, 103], .ctl .pause 0, .ctl .resume 0, .close])
+example : let s := (runSched ⟨true, true⟩
+      (init [.play [101, 102, 103] 2, .ctl .pause 0, .ctl .resume 0, .close])
       (mkSched [0,0,0,0,0,1,0,0,0,1,1,1,0,0,0,1,1,1,0,0,0,1,1,1,0,1,1,1,0,0,0,0,0])).1
     (Ev.closeOk [false] 0 ∈ s.log ∧ s.players.map (·.written) = [[[101, 102], [103, 0]]]) := by
   decide
@@ -497,21 +497,21 @@ instance (cfg : Cfg) (s : State) : Decidable (StuckInClose cfg s) := by
 close()` reaches a state in which `close` never returns.  Schedule found on the real code by the
 scheduler harness (19 steps). -/
 theorem deadlock_pause_close :
-    StuckInClose ⟨false, false, 2⟩
-      (runSched ⟨false, false, 2⟩ (init [.play [101], .ctl .pause 0, .close])
+    StuckInClose ⟨false, false⟩
+      (runSched ⟨false, false⟩ (init [.play [101] 2, .ctl .pause 0, .close])
         (mkSched [0,0,0,0,0,0,0,0,0,0,0,0,1,1,1,1,0,0,0])).1 := by decide
 
 /-- the same with `wait=True` (close joins the paused player without stopping it) -/
 theorem deadlock_pause_close_wait :
-    StuckInClose ⟨true, false, 2⟩
-      (runSched ⟨true, false, 2⟩ (init [.play [101], .ctl .pause 0, .close])
+    StuckInClose ⟨true, false⟩
+      (runSched ⟨true, false⟩ (init [.play [101] 2, .ctl .pause 0, .close])
         (mkSched [0,0,0,0,0,0,0,0,0,0,0,0,1,1,1,1])).1 := by decide
 
 /-- … and the repaired `stop()` does not change that (`wait=True` never calls `stop()`): known
 finding D10b stays.  `close_returns_wait` states the exact hypothesis this script violates. -/
 theorem deadlock_pause_close_wait_fixed :
-    StuckInClose ⟨true, true, 2⟩
-      (runSched ⟨true, true, 2⟩ (init [.play [101], .ctl .pause 0, .close])
+    StuckInClose ⟨true, true⟩
+      (runSched ⟨true, true⟩ (init [.play [101] 2, .ctl .pause 0, .close])
         (mkSched [0,0,0,0,0,0,0,0,0,0,0,0,1,1,1,1])).1 := by decide
 
 /-- **C17.6b** the player need not be paused when `close` starts: `pause ; play ; close` deadlocks
@@ -519,13 +519,13 @@ too when the thread had already seen the pause (it tests `halting` before `go.wa
 clears `go` again afterwards).  So "no player is paused when close starts" is NOT sufficient for
 `close` to return in the code as it is. -/
 theorem deadlock_pause_resume_close :
-    StuckInClose ⟨false, false, 2⟩
-      (runSched ⟨false, false, 2⟩ (init [.play [101], .ctl .pause 0, .ctl .resume 0, .close])
+    StuckInClose ⟨false, false⟩
+      (runSched ⟨false, false⟩ (init [.play [101] 2, .ctl .pause 0, .ctl .resume 0, .close])
         (mkSched [0,0,0,0,0,0,0,0,0,0,1,1,1,1,0,0,0,0,0,0,0,0])).1 := by decide
 
 /-- with the proposed fix (`Cfg.fixed`) the very same schedules run `close` to its end -/
 theorem fixed_pause_close_returns :
-    ((runSched ⟨false, true, 2⟩ (init [.play [101], .ctl .pause 0, .close])
+    ((runSched ⟨false, true⟩ (init [.play [101] 2, .ctl .pause 0, .close])
         (mkSched ([0,0,0,0,0,0,0,0,0,0,0,0,1,1,1,1,0,0,0] ++ [1,1,1,1,1,1,0,0,0,0,0]))).1.log
       = [.playOk 0, .ctlOk, .closeOk [false] 0]) := by decide
 
@@ -533,7 +533,7 @@ theorem fixed_pause_close_returns :
 close returns" fails on one window: a player that has already left `_threads` is not joined, and
 may still have its last lock release to do (it is past every backend call: `closed_after`). -/
 theorem alive_after_close_reachable :
-    ((runSched ⟨true, false, 2⟩ (init [.play [101], .close])
+    ((runSched ⟨true, false⟩ (init [.play [101] 2, .close])
         (mkSched [0,0,0,0,0,0,0,1,1,1,1,1,1,1,0,0,0,0])).1.log
       = [.playOk 0, .closeOk [true] 0]) := by decide
 
